@@ -540,10 +540,12 @@ class Interp(object):
                 return ERROR
             if a is ABSENT and b is ABSENT:
                 return ABSENT
-            if a is ABSENT:
-                return b
-            if b is ABSENT:
-                return a
+            if a is ABSENT or b is ABSENT:
+                other = b if a is ABSENT else a
+                if not isinstance(other, str):
+                    # "absent rules: the other operand is returned" vs "non-strings are coerced": 0 or "0"? not pinned
+                    raise Unmodelled("dot of absent and a non-string")
+                return other
             if a is None or b is None:
                 raise Unmodelled("dot on null")
             r = fmt_scalar(a) + fmt_scalar(b)
@@ -1326,6 +1328,11 @@ class Interp(object):
         if op == ".":
             if a is ABSENT and b is ABSENT:
                 return ABSENT
+            if a is ABSENT or b is ABSENT:
+                other = b if a is ABSENT else a
+                if not isinstance(other, str):
+                    raise Unmodelled("dot of absent and a non-string")
+                return other
             if isinstance(a, (MMap, list)) or isinstance(b, (MMap, list)) or a is ERROR or b is ERROR or a is None or b is None:
                 raise Unmodelled("dot-assign operands")
             r = fmt_scalar(a) + fmt_scalar(b)
